@@ -198,6 +198,19 @@ def run_case(tree, case, rnd):
     """-> (status, snapshot before, snapshot after, content)"""
     tree.reset(case["L"], case.get("M"))
     up = os.path.join(tree.top, "up")
+    if case.get("clash"):
+        # a layout in which the name a store would use for its temporary file is already taken (the handler runs in this
+        # process: the name is predictable if it is built from the target's name and the process id)
+        base = case["path"][-1]
+        for cand in (".%s.%d.upload" % (base, os.getpid()), ".%s.upload" % base, "%s.tmp" % base, ".%s.tmp" % base, "%s.part" % base):
+            cp = os.path.join(up, cand)
+            if case["clash"] == "linkout":
+                os.symlink(os.path.join(tree.top, "out", "sec"), cp)
+            elif case["clash"] == "linknew":
+                os.symlink(os.path.join(tree.top, "out", "brand-new"), cp)
+            else:
+                with open(cp, "w") as f:
+                    f.write("SOMEBODY-ELSES-FILE %s\n" % cand)
     line, content = build_request(case, rnd)
     before = snapshot(tree.top)
     if case["fault"] == "none":
@@ -355,17 +368,17 @@ def concurrent_pairs(rep, rnd, count):
         ca = b"CONTENT-OF-A-" + bytes(rnd.getrandbits(8) for _ in range(20))
         cb = b"CONTENT-OF-B-" + bytes(rnd.getrandbits(8) for _ in range(30))
         barrier = threading.Barrier(2)
-        orig_write = pathlib.Path.write_bytes
+        orig_replace = os.replace
 
-        def write_bytes(self, data):
-            r = orig_write(self, data)
+        def replace(*a, **kw):
+            # however the content was written: a worker thread waits here, just before its rename, for the other one
             if threading.get_ident() != main_thread:
                 try:
                     barrier.wait(timeout=0.5)
                 except threading.BrokenBarrierError:
                     pass
-            return r
-        pathlib.Path.write_bytes = write_bytes
+            return orig_replace(*a, **kw)
+        os.replace = replace
         loop = VLoop()
         asyncio.set_event_loop(loop)
         try:
@@ -398,7 +411,7 @@ def concurrent_pairs(rep, rnd, count):
                 rep.violation({"formula": bad[0], "concurrent": True},
                               "%s falsified: two simultaneous uploads to /same.bin answered %s: %s" % (bad[0], sts, bad[1]), None)
         finally:
-            pathlib.Path.write_bytes = orig_write
+            os.replace = orig_replace
             try:
                 for t in asyncio.all_tasks(loop):
                     t.cancel()
@@ -467,6 +480,13 @@ def main(pid="C14"):
             cases.append({"L": rnd.choice(lslots if withm else slots), "M": {"k": "link", "to": "M"} if withm else {"k": "absent", "to": "-"},
                           "path": [rnd.choice(segs_) for _ in range(rnd.randint(3, 5))], "size": rnd.choice(["ok", "ok", "zero"]),
                           "token": rnd.choice(["notneeded", "right"]), "mime": rnd.choice(["nolist", "allowed"]), "deleteOn": True, "fault": "none"})
+        for clash in ("linkout", "linknew", "file"):
+            for pth in (["n"], ["e"], ["d", "n"]):
+                if pth == ["d", "n"]:
+                    continue            # (the clash files are created in up/ itself)
+                for size in ("ok", "zero"):
+                    cases.append({"L": {"k": "absent", "to": "-"}, "M": {"k": "absent", "to": "-"}, "path": pth, "size": size, "token": "notneeded",
+                                  "mime": "nolist", "deleteOn": True, "fault": "none", "clash": clash})
         out = []
         for c in cases:
             st, before, after, content = run_case(tree, c, rnd)
